@@ -40,17 +40,17 @@ func pick(n int64) int64 {
 	return v
 }
 
-func Intn(n int) int          { return int(pick(int64(n))) }
-func Int63n(n int64) int64    { return pick(n) }
-func Int31n(n int32) int32    { return int32(pick(int64(n))) }
-func Int63() int64            { return pick(1 << 62) }
-func Int31() int32            { return int32(pick(1 << 30)) }
-func Int() int                { return int(pick(1 << 62)) }
-func Uint32() uint32          { return uint32(pick(1 << 32)) }
-func Uint64() uint64          { return uint64(pick(1 << 62)) }
-func ExpFloat64() float64     { return draw() }
-func NormFloat64() float64    { return draw() - 0.5 }
-func Seed(int64)              {}
+func Intn(n int) int                     { return int(pick(int64(n))) }
+func Int63n(n int64) int64               { return pick(n) }
+func Int31n(n int32) int32               { return int32(pick(int64(n))) }
+func Int63() int64                       { return pick(1 << 62) }
+func Int31() int32                       { return int32(pick(1 << 30)) }
+func Int() int                           { return int(pick(1 << 62)) }
+func Uint32() uint32                     { return uint32(pick(1 << 32)) }
+func Uint64() uint64                     { return uint64(pick(1 << 62)) }
+func ExpFloat64() float64                { return draw() }
+func NormFloat64() float64               { return draw() - 0.5 }
+func Seed(int64)                         {}
 func Shuffle(n int, swap func(i, j int)) {}
 func Perm(n int) []int {
 	p := make([]int, n)
